@@ -85,8 +85,14 @@ def upgrad_ladder(chk, rng, n_cases, found):
         c1, c2 = gen_c(rng, m), gen_c(rng, m)
         a, b = F(2) ** rng.randint(-2, 2), F(rng.randint(1, 7), 4)
         c3 = [a * x + b * y for x, y in zip(c1, c2)]
+        # norm_eps only selects the branch (largest singular value vs norm_eps); it is varied so that
+        # smaller singular values of the scaled matrices fall below it while the largest stays above
+        smin = min(float(A.sigma_max(scale_rows(cc, J))) for cc in (c1, c2, c3))
+        ne = rng.choice([F(1, 10 ** 4), F(1, 10 ** 2), F(1, 20), F(1, 10 ** 4)])
+        if smin < 4 * float(ne):
+            ne = F(1, 10 ** 4)
         for re_ in ladder + [F(1, 10 ** 16)]:
-            p = {"pref": pref, "norm_eps": F(1, 10 ** 4), "reg_eps": re_}
+            p = {"pref": pref, "norm_eps": ne, "reg_eps": re_}
             outs, dens = [], []
             ok = True
             for cc in (c1, c2, c3):
